@@ -508,6 +508,19 @@ pub mod bed {
             b.set_chrom(&r.chrom);
             return b;
         }
+        // a record with an empty name and a score can be built by setting the score alone (set_score fills the name
+        // column with "")
+        if setters && r.aux.len() >= 2 && r.aux[0].is_empty() && r.start % 2 == 0 {
+            let mut b = lib::Record::new();
+            b.set_chrom(&r.chrom);
+            b.set_start(r.start);
+            b.set_end(r.end);
+            b.set_score(&r.aux[1]);
+            for a in &r.aux[2..] {
+                b.push_aux(a);
+            }
+            return b;
+        }
         let mut b = lib::Record::new();
         b.set_chrom(&r.chrom);
         b.set_start(r.start);
